@@ -235,6 +235,77 @@ def cache_put(digest, flavour, name, r):
     json.dump(d, open(p, "w"))
 
 
+# --------------------------------------------------------------------------- overlay repair
+# A change to /repo may alter the signature of a function a contract names. Then the overlay no
+# longer compiles. Instead of giving up on the whole property, the bodies of the overlay functions
+# that have compile errors are replaced by a diverging placeholder (so everything else still
+# compiles), the harnesses affected are reported as *dropped* (undecided), and the remaining
+# contracts are still checked.
+
+def compile_error_spans(out):
+    """(file basename, line) of rustc errors located in the overlay (src/verif_h/*.rs)."""
+    spans = []
+    cur_is_error = False
+    for line in out.splitlines():
+        if re.match(r"^error(\[E\d+\])?:", line):
+            cur_is_error = True
+            continue
+        if re.match(r"^(warning|note|help)", line):
+            cur_is_error = False
+            continue
+        m = re.match(r"^\s*--> (\S+):(\d+):\d+", line)
+        if m and cur_is_error:
+            f = m.group(1)
+            if "verif_h/" in f:
+                spans.append((os.path.basename(f), int(m.group(2))))
+            cur_is_error = False
+    return spans
+
+
+def drop_function_bodies(scratch, spans):
+    """Replaces the body of each overlay function containing an error line. Returns names dropped."""
+    dropped = []
+    by_file = {}
+    for f, ln in spans:
+        by_file.setdefault(f, set()).add(ln)
+    for f, lines in by_file.items():
+        path = os.path.join(scratch, "src", "verif_h", f)
+        if not os.path.exists(path):
+            continue
+        src = open(path).read().split("\n")
+        # function starts: top-level `fn` items (column 0, possibly `pub(crate) `)
+        starts = [i for i, l in enumerate(src) if re.match(r"^(pub(\([a-z]+\))? )?(const )?(unsafe )?fn \w+", l)]
+        for ln in sorted(lines, reverse=True):
+            idx = ln - 1
+            cand = [st for st in starts if st <= idx]
+            if not cand:
+                continue
+            st = cand[-1]
+            # find the opening brace line of the body and its matching close (column-0 `}`)
+            end = None
+            for j in range(st, len(src)):
+                if src[j] == "}":
+                    end = j
+                    break
+            if end is None or end < idx:
+                continue
+            open_line = None
+            for j in range(st, end):
+                if src[j].rstrip().endswith("{"):
+                    open_line = j
+                    break
+            if open_line is None:
+                continue
+            name = re.match(r"^(?:pub(?:\([a-z]+\))? )?(?:const )?(?:unsafe )?fn (\w+)", src[st]).group(1)
+            if name in dropped:
+                continue
+            src[open_line + 1:end] = ["    // body dropped by verif.py: it no longer compiles against the current tree", "    crate::verif_h::dropped()"]
+            dropped.append(name)
+            starts = [i for i, l in enumerate(src) if re.match(r"^(pub(\([a-z]+\))? )?(const )?(unsafe )?fn \w+", l)]
+        open(path, "w").write("\n".join(src))
+    return dropped
+
+
 # --------------------------------------------------------------------------- running Kani
 
 def kani_env():
@@ -608,6 +679,7 @@ def check(prop, tier, keep=False, only=None):
         undecided = []
         digest = tree_digest(scratch)
         reused = []
+        dropped_fns = []
         for flavour in FLAVOURS:
             fh_all = [h for h in hs if h.flavour == flavour]
             if not fh_all:
@@ -625,6 +697,19 @@ def check(prop, tier, keep=False, only=None):
                 continue
             jobs = min(int(os.environ.get("VERIF_JOBS", "8")), NCPU, max(1, len(fh)))
             res, out, cmd, rc, wall = run_kani(scratch, flavour, fh, jobs)
+            attempts = 0
+            while not res and rc != 0 and attempts < 3:
+                spans = compile_error_spans(out)
+                if not spans:
+                    break
+                names = drop_function_bodies(scratch, spans)
+                if not names:
+                    break
+                attempts += 1
+                dropped_fns.extend(names)
+                log("[%s] overlay does not compile against the tree; dropped the bodies of: %s" % (prop, ", ".join(names)))
+                digest = tree_digest(scratch)  # results of a repaired overlay are keyed separately
+                res, out, cmd, rc, wall = run_kani(scratch, flavour, fh, jobs)
             cmds.append(cmd)
             raw_logs[flavour] = out
             log("[%s] kani flavour=%s harnesses=%d (reused %d) rc=%d wall=%.0fs" % (prop, flavour, len(fh), len(fh_all) - len(fh), rc, wall))
@@ -662,6 +747,8 @@ def check(prop, tier, keep=False, only=None):
             log("[%s] verus %s: %s verified=%d errors=%d %.1fs" % (prop, os.path.basename(f), r["status"], r["verified"], r["errors"], r["time_s"]))
 
         known = load_known()
+        if dropped_fns:
+            undecided.append("these overlay functions no longer compile against the tree (a function under contract changed its signature?) and were dropped: %s - the harnesses that run into them are not decided" % ", ".join(dropped_fns))
         violations = []
         known_hits = []
         obligations = 0
@@ -704,6 +791,8 @@ def check(prop, tier, keep=False, only=None):
                 def internal(fc):
                     if "is not currently supported by Kani" in fc["description"]:
                         return True  # tool limit, not a property of the code
+                    if "overlay_function_dropped_because_it_no_longer_compiles" in fc["description"]:
+                        return True
                     return fc["description"].startswith("unwinding assertion") and ("verif_h" in fc["function"] or fc["file"].startswith("<builtin"))
                 real = [fc for fc in r["failed_checks"] if not internal(fc)]
                 if not real:
@@ -811,6 +900,7 @@ def check(prop, tier, keep=False, only=None):
                 "known_findings_reported": [k["id"] for (k, _, _) in known_hits],
                 "known_finding_obligations_not_discharged": known_failed,
                 "undecided": undecided,
+                "overlay_functions_dropped": dropped_fns,
                 "results_reused_from_identical_input_run": reused,
                 "input_digest": digest[:32],
                 "bounded_parts": meta.get("bounded_parts", []),
